@@ -354,8 +354,7 @@ def expect_datetime(decl, fmt, value):
             if day > 28 and False:
                 pass
         elif year is None:
-            if month == 2 and day == 29:
-                return (UNJUDGED, "29 Feb without a year")
+            # (29 February without a year is a day of the calendar: every leap year has one)
             if day > [31, 29, 31, 30, 31, 30, 31, 31, 30, 31, 30, 31][month - 1]:
                 return (REJECT, "day beyond the end of the month")
         else:
